@@ -517,7 +517,7 @@ def check(prop, tier, seed):
         samples=samples or [dict(note="no non-trivial sample recorded")],
         exhaustive=False,
         steps=steps,
-        simulated_time_s=round(simns / 1e9, 3),
+        simulated_time_s=round(simns / 1e9, 3),  # per run capped at one hour
         runs_per_hour=int(runs / max(wall, 1e-9) * 3600),
         seeds=[seed],
         race_build_runs=race_runs,
